@@ -6,7 +6,8 @@
 
         repr (Gen.f s args) = Model.f (repr s) args          for ALL s, args
 
-   between the generated definitions and Model.ensure / try_inc / peek.  They are
+   between the generated definitions and Model.ensure / try_inc / peek (Counter: of the
+   tree with patches/C09/fix-F-C09b.patch).  They are
    proved, not sampled: when an operator, the order of two effects or what is
    stored on a path changes in the Go source, Gen.v changes and these proofs stop
    compiling.
@@ -157,24 +158,25 @@ Qed.
 
 (* ---------------------------------------------------------------- Counter *)
 
+(* Counter() of the tree with patches/C09/fix-F-C09b.patch: it never panics -- on a state
+   whose window size is still 0 (registered by getLimiterState, window data not stored yet)
+   it returns the counter as it is, which is what Model.peek says.  On the unpatched tree
+   the generated Counter is [Panicked] there and this proof does not compile. *)
 Theorem C09_gen_Counter : forall s now,
-  match Gen.Counter s now with
-  | Panicked s' => wW (swd (repr s)) = 0 /\ repr s' = peek now (repr s)
-  | Normal s' c => wW (swd (repr s)) <> 0 /\ repr s' = peek now (repr s)
-                   /\ c = cnt (peek now (repr s))
-  end.
+  exists s', Gen.Counter s now = Normal s' (cnt (peek now (repr s))) /\
+             repr s' = peek now (repr s).
 Proof.
   intros s now. unfold Gen.Counter, peek.
-  destruct (Z.eq_dec (size_of s) 0) as [H0|H0].
-  - rewrite (gen_ensure_panics s now H0).
-    change (wW (swd (repr s))) with (size_of s). rewrite H0. split; reflexivity.
-  - destruct (gen_ensure_normal s now H0) as (s' & -> & Hr & _).
-    change (wW (swd (repr s))) with (size_of s).
-    destruct (size_of s =? 0) eqn:E; [apply Z.eqb_eq in E; contradiction|].
-    split; [exact H0|]. split; [exact Hr|]. now rewrite <- Hr.
+  change (wW (swd (repr s))) with (size_of s).
+  change (Gen.WindowData_WindowSize (Gen.srl_windowData s)) with (size_of s).
+  destruct (size_of s =? 0) eqn:E.
+  - exists s. split; reflexivity.
+  - apply Z.eqb_neq in E. destruct (gen_ensure_normal s now E) as (s' & -> & Hr & _).
+    exists s'. rewrite <- Hr. split; reflexivity.
 Qed.
 
 End Reading.
+Print Assumptions C09_gen_Counter.
 
 (* the model's instance: rd = snap, scaledQuota = limit_code (this lemma mentions
    Flocq's binary64 and therefore rests on the axioms named in props/C09.json) *)
